@@ -157,7 +157,7 @@ def gen_one(rng, tier, index):
 
 
 def gen_cases(tier, seed):
-    n = 1500 if tier == 'quick' else 16 * 2000
+    n = 1500 if tier == 'quick' else 16 * 5000
     for i in range(n):
         yield gen_one(random.Random(f'C15/{seed}/{tier}/{i}'), tier, i)
 
